@@ -265,6 +265,9 @@ def dec_deriv(text_lines):
         inside = [r for r in roots if a <= r['span'][0] and r['span'][1] <= b]
         if not inside or len(inside) > 2:
             raise DecodeError('deriv: %d nodes under a bar' % len(inside))
+        # the format carries the tree shape by column alignment only: a rule line spans exactly the columns of its children
+        if inside[0]['span'][0] != a or inside[-1]['span'][1] != b:
+            raise DecodeError('deriv: rule line [%d,%d) does not span its children [%d,%d)' % (a, b, inside[0]['span'][0], inside[-1]['span'][1]))
         node = dict(kind='N', cat=sstrip(catline), symbol=sym, children=inside, span=(a, b))
         k = roots.index(inside[0])
         roots[k:k + len(inside)] = [node]
